@@ -907,6 +907,26 @@ theorem truncating_comparator_is_order_dependent :
     rowLessTrunc 8 ords a b = false ∧ rowLessTrunc 8 ords b c = false ∧ rowLessTrunc 8 ords a c = true := by
   decide
 
+/-! THE HAVING SCRATCH SET HOISTED OUT OF THE PER-SERIES LOOP (seeded change c12-14): a slot
+rejected for one group is dropped in every group rendered after it, and rendering order is Go map
+order. Threshold `> 16` (2.0), group 0 has 8 (1.0) at slot 1, group 1 has 40 (5.0) at slot 1. -/
+theorem having_leak_is_order_dependent :
+    let h : Having := { op := 1, thr := 16 }
+    let g0 : Row := { tags := 0, vals := [some [(1, 8), (2, 24)]] }
+    let g1 : Row := { tags := 1, vals := [some [(1, 40)]] }
+    -- per-series scratch (the code): group 1 keeps its slot 1 in both rendering orders
+    havingRows (some h) [g0, g1] = [{ tags := 0, vals := [some [(2, 24)]] }, g1] ∧
+    havingRows (some h) [g1, g0] = [g1, { tags := 0, vals := [some [(2, 24)]] }] ∧
+    -- hoisted scratch: rendered after group 0, group 1 loses slot 1
+    havingRowsLeaky h [] [g0, g1] = [{ tags := 0, vals := [some [(2, 24)]] }, { tags := 1, vals := [some []] }] ∧
+    havingRowsLeaky h [] [g1, g0] = [g1, { tags := 0, vals := [some [(2, 24)]] }] := by decide
+
+/-! THE RECEIVE-ONLY FLAG TESTED ON THE LIVE-NODE INDEX (seeded change c12-13): with more live
+nodes than compute nodes and node 0 not among the chosen ones, nobody executes. -/
+theorem plan_by_live_index_without_executor :
+    executors (buildPlanByLiveIndex (List.range 6) 2 [3, 1, 0, 2, 4, 5]) = [] ∧
+    (executors (buildPlan (List.range 6) 2 [3, 1, 0, 2, 4, 5])).length = 1 := by decide
+
 /-- the full-strength statement is false of the code as it is (witness (a); (b), (c), (d) refute
 it just as well) -/
 theorem full_statement_false : ¬ FullStatement .code := by
@@ -935,6 +955,90 @@ theorem full_statement_false : ¬ FullStatement .code := by
   exact absurd this (by decide)
 
 end Neg
+
+/-! ## HAVING and the physical plan -/
+
+/-- HAVING is applied per group, after the merge (and after order by / limit): the filtered rows
+do not depend on the order in which the groups are rendered … -/
+theorem having_independent_of_group_order (h : Option Having) (rows rows' : List Row) (hp : rows.Perm rows') :
+    (havingRows h rows).Perm (havingRows h rows') := by
+  cases h with
+  | none => exact hp
+  | some h => exact hp.map _
+
+/-- … every row is filtered by its own values only … -/
+theorem having_is_per_row (h : Having) (rows : List Row) (i : Nat) :
+    (havingRows (some h) rows)[i]? = (rows[i]?).map (Row.having h) := by
+  simp [havingRows]
+
+/-- … and HAVING commutes with the layout: filter-after-merge of any layout and schedule = of any
+other (hypotheses of `partition_invariance_partial`). -/
+theorem having_commutes_with_layout (sp0 : List Spec) (cap : Nat) (hs : Simple sp0) (its : List TS)
+    (ns1 ns2 : List Node)
+    (hOK1 : ∀ L ∈ leavesOf ns1, L.OK sp0) (hne1 : leavesOf ns1 ≠ [])
+    (hp1 : ((leavesOf ns1).flatMap (·.its)).Perm its)
+    (hOK2 : ∀ L ∈ leavesOf ns2, L.OK sp0) (hne2 : leavesOf ns2 ≠ [])
+    (hp2 : ((leavesOf ns2).flatMap (·.its)).Perm its)
+    (items : List SelItem) (ords : List OrdItem) (limit : Nat) (having : Option Having) (order : List Tag) :
+    ((Ctx.new ns1.length).handleAll .code (ns1.map (Node.resp cap))).outcomeH items ords limit having order =
+    ((Ctx.new ns2.length).handleAll .code (ns2.map (Node.resp cap))).outcomeH items ords limit having order := by
+  unfold Ctx.outcomeH
+  rw [layout_independence sp0 cap hs its ns1 ns2 hOK1 hne1 hp1 hOK2 hne2 hp2 items ords limit order]
+
+theorem zipIdx_flags_from (l : List Nat) (k : Nat) (hk : 1 ≤ k) :
+    ((l.zipIdx k).map (fun p => (p.1, p.2 != 0))).filter (fun p => !p.2) = [] := by
+  induction l generalizing k with
+  | nil => rfl
+  | cons x xs ih =>
+    rw [List.zipIdx_cons, List.map_cons, List.filter_cons]
+    have : (k != 0) = true := by simp; omega
+    simp only [this, Bool.not_true, Bool.false_eq_true, if_false]
+    exact ih (k + 1) (by omega)
+
+/-- **the plan has exactly one executor**: for every shuffle of the live nodes and every number of
+compute nodes `n ≥ 1` (and at least one live node) `BuildPhysicalPlan` yields `min n |live|`
+targets, all of them live nodes, pairwise distinct, exactly ONE of which is not receive-only. -/
+theorem plan_has_one_executor (live : List Nat) (hl : live ≠ []) (n : Nat) (hn : 1 ≤ n) (perm : List Nat)
+    (hp : perm.Perm (List.range live.length)) :
+    let plan := buildPlan live n perm
+    (executors plan).length = 1 ∧ plan.length = min n live.length ∧
+    (∀ p ∈ plan, p.1 ∈ live) ∧ (live.Nodup → (plan.map Prod.fst).Nodup) := by
+  intro plan
+  have hsh : (perm.filterMap (fun i => live[i]?)).Perm live := by
+    have h1 := hp.filterMap (fun i => live[i]?)
+    rw [filterMap_getElem_range] at h1; exact h1
+  have hfst : plan.map Prod.fst = (perm.filterMap (fun i => live[i]?)).take n := by
+    show (((perm.filterMap (fun i => live[i]?)).take n).zipIdx.map (fun p => (p.1, p.2 != 0))).map Prod.fst = _
+    rw [List.map_map]
+    have : (Prod.fst ∘ fun p : Nat × Nat => (p.1, p.2 != 0)) = Prod.fst := by funext p; rfl
+    rw [this, List.zipIdx_map_fst]
+  refine ⟨?_, ?_, ?_, ?_⟩
+  · -- the taken prefix is non-empty; its head is the executor, nobody else
+    cases hsf : (perm.filterMap (fun i => live[i]?)).take n with
+    | nil =>
+      have hlen := congrArg List.length hsf
+      rw [List.length_take, hsh.length_eq, List.length_nil] at hlen
+      have : 0 < live.length := List.length_pos_of_ne_nil hl
+      have : 0 < min n live.length := by omega
+      omega
+    | cons x xs =>
+      show (executors (((perm.filterMap (fun i => live[i]?)).take n).zipIdx.map (fun p => (p.1, p.2 != 0)))).length = 1
+      rw [hsf]
+      unfold executors
+      rw [List.zipIdx_cons, List.map_cons, List.filter_cons]
+      simp only [bne_self_eq_false, Bool.not_false, if_true, List.map_cons, List.length_cons]
+      rw [zipIdx_flags_from xs 1 (le_refl 1)]
+      rfl
+  · have := congrArg List.length hfst
+    rw [List.length_map, List.length_take, hsh.length_eq] at this
+    exact this
+  · intro p hpm
+    have : p.1 ∈ plan.map Prod.fst := List.mem_map.mpr ⟨p, hpm, rfl⟩
+    rw [hfst] at this
+    exact hsh.mem_iff.mp (List.mem_of_mem_take this)
+  · intro hnd
+    rw [hfst]
+    exact (hsh.nodup_iff.mpr hnd).sublist (List.take_sublist _ _)
 
 /-! ## 7. routing of written rows -/
 
@@ -1178,6 +1282,13 @@ theorem generated_topn_less :
       "  ret := h.rows[i].GetValue(by.Name, by.FuncType) - h.rows[j].GetValue(by.Name, by.FuncType)",
       "  if by.Desc", "    ret = -ret", "  if ret > 0", "    return true", "  else", "    if ret < 0",
       "      return false", "return false"] := by decide
+
+open LinVerif.Generated.C12 in
+/-- `flow.BuildPhysicalPlan` is what `buildPlan` models: shuffle the live nodes, walk them with
+their position `i` IN THE SHUFFLED LIST (= the position in the plan), stop at `numOfNodes`,
+receive-only unless `i == 0` -/
+theorem generated_build_plan :
+    buildPlanSteps = ["physicalPlan := &models.PhysicalPlan{ Database: database, }", "numOfLiveNodes := len(liveNodes)", "if numOfLiveNodes > 0", "  random := rand.New(rand.NewSource(time.Now().UnixNano()))", "  random.Shuffle(numOfLiveNodes, func(i, j int) { liveNodes[i], liveNodes[j] = liveNodes[j], liveNodes[i] })", "  range i, node := liveNodes", "    if i == numOfNodes", "      break", "    receiveOnly := true", "    if i == 0", "      receiveOnly = false", "    physicalPlan.AddTarget(&models.Target{ Indicator: node.Indicator(), ReceiveOnly: receiveOnly, })", "return physicalPlan"] := by decide
 
 open LinVerif.Generated.C12 in
 theorem generated_hash_and_routing :
